@@ -6,15 +6,21 @@ RULE = ("npy: for each base file (version x dtype/itemsize x shape incl. zero-le
         "harness builds the file and tries every truncation offset and every extension on Array::read_npy, and view/fold/"
         "stat of the binary on the cuts around every segment boundary. text: TLC explores up to MaxFaults edits (drop/insert "
         "a value token, change one declared length by +-1, drop/add an axis); the reader must accept exactly when the token "
-        "count equals the product of the declared shape. Non-trivial/distinct: distinct damaged file.")
+        "count equals the product of the declared shape. TextGrammar.tla is the accepted language of the text reader at the "
+        "level of characters (format detection, lax header trimming, usize and f64 literal grammars, white-space splitting, "
+        "count = product): 21 header spellings x 14 body layouts x 24 value spellings, each replayed on the library reader and "
+        "on `sfs view` (accept with shape and count, or reject). Non-trivial/distinct: distinct damaged file.")
 ASSUME = ["a rejected input must also leave stdout empty and give a diagnostic; a panic counts as a violation",
           "text files are rendered with single spaces and 6 decimals"]
 
 
 def run(tier):
     if tier == "quick":
-        stages = [("MCNpyCheck", "MCNpyCheck_quick.cfg", "npy"), ("MCTextFile", "MCTextFile_quick.cfg", "text")]
+        stages = [("MCNpyCheck", "MCNpyCheck_quick.cfg", "npy"), ("MCTextFile", "MCTextFile_quick.cfg", "text"),
+                  ("MCTextGrammar", "MCTextGrammar_t1.cfg", "textgrammar")]
     else:
-        stages = [("MCNpyCheck", "MCNpyCheck_t1.cfg", "npy"), ("MCTextFile", "MCTextFile_t1.cfg", "text")]
+        stages = [("MCNpyCheck", "MCNpyCheck_t1.cfg", "npy"), ("MCTextFile", "MCTextFile_t1.cfg", "text"),
+                  ("MCTextGrammar", "MCTextGrammar_t1.cfg", "textgrammar")]
     return standard("C16", tier, "fault_enumeration", RULE, ASSUME, stages,
-                    sabotage=[("MCNpyCheck", "MCNpyCheck_abStopAtCount.cfg", ["DamageOk"])])
+                    sabotage=[("MCNpyCheck", "MCNpyCheck_abStopAtCount.cfg", ["DamageOk"]),
+                              ("MCTextGrammar", "MCTextGrammar_abBlankOnly.cfg", ["WhitespaceInsensitive", "CanonicalAccepted"])])
